@@ -733,8 +733,16 @@ def _single_store(a: A, o, f, prop, what):
     if not evs:
         others = [e for e in a.events(f)]
         if others:
-            o.refute(f, others[0].node, others[0].node,
-                     f"{what}: the documented primitive (assignment of `{prop}`) is not used; found `{src(others[0].node)[:70]}`")
+            # a helper that itself performs the documented assignment is a spelling the rule does not follow; one that edits the
+            # relation fields directly (or anything else) is not the documented primitive
+            via = [t.qual for e in others if e.kind == 'call' for t in e.ci.targets if t is not None and t.qual not in ALLM
+                   and any(x.kind == 'setter' and x.name == prop for x in a.events(t))]
+            if via:
+                o.undecided(f, others[0].node, others[0].node,
+                            f"{what}: the assignment of `{prop}` is made inside {', '.join(sorted(set(via)))}, which this rule does not follow")
+            else:
+                o.refute(f, others[0].node, others[0].node,
+                         f"{what}: the documented primitive (assignment of `{prop}`) is not used; found `{src(others[0].node)[:70]}`")
             for e in others:
                 e.used = True
         else:
@@ -1141,6 +1149,34 @@ def delegation_operators(a: A, ctx):
     ctx.guarded(o, run)
 
 
+def _trampoline(a: A, f):
+    """f does nothing to relations itself but calls ONE private method g of its own class with its own two parameters, and g
+    is self-recursive (the real worker):  (call event, g, arguments swapped?)  or None"""
+    evs = a.events(f)
+    calls = [e for e in evs if e.kind == 'call' and isinstance(e.node, ast.Call)]
+    if len(calls) != 1 or len(evs) != 1 or len(f.params) != 3:
+        return None
+    e = calls[0]
+    tg = [t for t in e.ci.targets if t is not None]
+    if len(tg) != 1 or tg[0] is f or tg[0].cls != f.cls or tg[0].qual in ALLM or len(tg[0].params) != 3:
+        return None
+    g = tg[0]
+    c = e.node
+    if not (isinstance(c.func, ast.Attribute) and a.is_self(f, c.func.value) and not g.name.endswith('__') and g.name.startswith('_')):
+        return None
+    if not any(g in x.ci.targets for x in a.events(g) if x.kind == 'call'):
+        return None
+    args = facts.bound_args(c, g)
+    if len(args) != 2 or not all(isinstance(x, ast.Name) for x in args):
+        return None
+    ids = [x.id for x in args]
+    if ids == [f.params[1], f.params[2]]:
+        return e, g, False
+    if ids == [f.params[2], f.params[1]]:
+        return e, g, True
+    return None
+
+
 @part
 def delegation_wbs(a: A, ctx):
     o = ctx.ob('delegation.wbs', 'R4',
@@ -1191,6 +1227,30 @@ def delegation_wbs(a: A, ctx):
         # recursive search
         f = search
         what = 'WBS.__remove'
+        # the search may only be an entry point (guard on the task) that hands both arguments on to a private recursive worker
+        hop = _trampoline(a, f)
+        if hop is not None:
+            ev0, g, swapped = hop
+            ev0.used = True
+            if swapped:
+                o.refute(f, ev0.node, ev0.node, f"{what}: hands its arguments to {g.name} in swapped order (`{src(ev0.node)}`)")
+                a.leftovers(o, f, what)
+                return
+            extra = [at for at, pol, _ in path_atoms(a, f, ev0.cn)
+                     if not ((match(f"{f.params[1]} is None", at) and not pol) or (match(f"{f.params[1]} is not None", at) and pol))]
+            if extra:
+                o.undecided(f, ev0.node, extra[0], f"{what}: the search depends on a condition the rule does not know")
+                a.leftovers(o, f, what)
+                return
+            rets0 = returns_of(f)
+            if not all(any(x is ev0.node for x in ast.walk(r)) or const_of(r.value) is False for r in rets0 if r.value is not None) \
+                    or not a.must_pass(o, f, [ev0], [cfg_of(f).node_of(r) for r in rets0 if const_of(r.value) is False], what):
+                o.undecided(f, f.node, what, f"{what}: result of the worker {g.name} is not handed back unchanged")
+                a.leftovers(o, f, what)
+                return
+            a.leftovers(o, f, what)
+            f = g
+            what = f'WBS.{g.name}'
         tp, cur = f.params[1], f.params[2]
         direct = [e for e in a.events(f) if e.kind == 'call' and isinstance(e.node, ast.Call) and e.name == 'remove'
                   and any(t.qual == 'task._ChildrenList.remove' for t in e.ci.targets)]
@@ -1318,7 +1378,12 @@ def delegation_remove_all(a: A, ctx):
                     if fo == 'done':
                         continue
                 if fo is None:
-                    o.refute(f, c, c, f"{what}: `{src(c)}` does not remove the matched tasks one by one")
+                    if arg0 is not None and isinstance(resolve(f, arg0, e.cn)[0], ast.Call) and \
+                            not isinstance(arg0, ast.Subscript):
+                        o.refute(f, c, c, f"{what}: `{src(c)}` hands the whole query result to the single-task removal instead of "
+                                          f"removing the matched tasks one by one")
+                    else:
+                        o.undecided(f, c, c, f"{what}: `{src(c)}` is not inside a loop over the matched tasks the rule can follow")
                     good = False
                     continue
                 if e.name == '__remove' and not (len(c.args) == 2 and a.is_self_attr(f, a.xp(f, c.args[1], e.cn), ROOT)):
@@ -1462,6 +1527,24 @@ def elem_class(a: A, f, recv, cn, i=1):
     return classify_list(a, f, fo.iter, hn, i), fo
 
 
+def elem_class_filtered(a: A, f, recv, cn, i=1):
+    """like elem_class, but a loop over `[v for v in L if C(v)]` (directly or through a local) is read as a loop over L whose
+    body runs under C(loop variable):  (class of L, for statement, [conditions with the loop variable substituted])"""
+    k, fo = elem_class(a, f, recv, cn, i)
+    if k is None or k[0] != 'other' or fo is None:
+        return k, fo, []
+    t = norm_list(k[1])
+    if t[0] == 'filter' and t[3] and t[2]:
+        hn = cfg_of(f).node_of(fo)
+        at = resolve(f, fo.iter, hn)[1]
+        inner = classify_list(a, f, t[1], at, i)
+        if inner[0] != 'other':
+            sub = {t[2]: ast.Name(id=recv.id, ctx=ast.Load())}
+            import copy
+            return inner, fo, [_Subst(sub).visit(copy.deepcopy(c)) for c in t[3]]
+    return k, fo, []
+
+
 def _write_arg_is_self(f, w):
     c = w.node
     return isinstance(c, ast.Call) and len(c.args) >= 1 and isinstance(c.args[-1], ast.Name) and c.args[-1].id == f.self_name
@@ -1538,13 +1621,17 @@ def children_setter(a: A, ctx):
             if w.field != '_Task__parent' or a.is_self(f, w.recv):
                 continue
             e.used = True
-            k, fo = elem_class(a, f, w.recv, e.cn)
+            k, fo, filt = elem_class_filtered(a, f, w.recv, e.cn)
             if not (w.kind == 'store' and const_of(w.node.value) is None):
                 o.refute(f, w.node, w.node, f"children setter writes `{src(w.node)}`: elements are re-parented through "
                                             f"their parent setter only; old children get parent None")
                 bad = True
                 continue
-            if k is None or k[0] not in ('live', 'copy') or k[1] != FLD:
+            if k is None or k[0] == 'other':
+                o.undecided(f, w.node, w.node, f"`{src(w.node)}`: cannot tell which tasks are released")
+                bad = True
+                continue
+            if k[0] not in ('live', 'copy') or k[1] != FLD:
                 o.refute(f, w.node, w.node, f"`{src(w.node)}` is applied to tasks that are not the old children")
                 bad = True
                 continue
@@ -1554,7 +1641,7 @@ def children_setter(a: A, ctx):
                 o.refute(f, fo, fo, "the old children are read after the list has been emptied: nobody is released")
                 bad = True
                 continue
-            inner = path_atoms(a, f, e.cn, since=hn)
+            inner = path_atoms(a, f, e.cn, since=hn) + [(c0, True, c0) for c0 in filt]
             if inner:
                 o.undecided(f, w.node, inner[0][0], "release of an old child depends on a condition the rule does not know")
                 bad = True
@@ -1616,8 +1703,12 @@ def children_setter(a: A, ctx):
             e.used = True
             c = e.node
             recv = c.func.value
-            k, fo = elem_class(a, f, recv, e.cn)
-            if k is None or k[0] not in ('copy', 'live') or k[1] != FLD:
+            k, fo, filt = elem_class_filtered(a, f, recv, e.cn)
+            if k is None or k[0] == 'other':
+                o.undecided(f, c, c, "`_detach()`: cannot tell which tasks are detached")
+                okd = False
+                continue
+            if k[0] not in ('copy', 'live') or k[1] != FLD:
                 o.refute(f, c, c, "`_detach()` is applied to tasks that are not the old children")
                 okd = False
                 continue
@@ -1632,6 +1723,8 @@ def children_setter(a: A, ctx):
                 okd = False
                 continue
             inner = path_atoms(a, f, e.cn, since=hn)
+            for c0 in filt:
+                inner = inner + [strip_not(x, q) + (c0,) for x, q in facts.split_conj(c0, True)]
             v = recv.id
             kept = [1 for at, pol, _ in inner if pol and (match(f"{v}._Task__parent is None", at) or match(f"{v}.parent is None", at))
                     or (not pol and match(f"{v}._Task__parent is not None", at))]
@@ -1875,6 +1968,27 @@ def append_last(a: A, ctx):
         def is_old_parent(e):
             return a.is_self_attr(f, e, PA)
 
+        # a shortcut exit `the given parent is already my parent -> return`: the task would keep its position, but a task
+        # appended / inserted again must leave its place and be put last
+        for r in returns_of(f):
+            rn = cfg.node_of(r)
+            if rn is None or not cfg.is_reachable(rn) or any(e.cn is not None and (e.cn is rn or cfg.can_reach(e.cn, rn)) for e in evs):
+                continue
+            atoms = _simplify_atoms([(at, pol) for at, pol, _ in path_atoms(a, f, rn)])
+            same_parent, understood = False, bool(atoms)
+            for at, pol in atoms:
+                k = _same_parent_atom(a, f, at, pol, P)
+                if k == 'same':
+                    same_parent = True
+                elif k is None:
+                    understood = False
+            if same_parent and understood:
+                o.refute(f, r, r, "parent setter returns without doing anything when the given parent already is the task's parent ("
+                         + ' and '.join(('' if pol else 'not ') + src(at) for at, pol in atoms)[:160] +
+                         "): children.append(t) / insert(i, t) of a task that is already a member no longer takes it out of its old "
+                         "position and appends it last")
+                return
+
         for e in writes:
             w = e.w
             if w.field == CH and not a.is_self(f, w.recv):
@@ -2053,6 +2167,68 @@ def append_last(a: A, ctx):
     ctx.guarded(o, run)
 
 
+def _simplify_atoms(atoms):
+    """[(atom, polarity)] of one path: conjunctions split; `not (A and B)` with A known true becomes `not B`, `A or B` with A
+    known false becomes B (repeated until nothing changes); duplicates dropped"""
+    cur = []
+    for a0, p0 in atoms:
+        cur += [strip_not(x, q) for x, q in facts.split_conj(a0, p0)]
+    for _ in range(8):
+        known = {_canon(x, q) for x, q in cur if not isinstance(x, ast.BoolOp)}
+        new, changed = [], False
+        for a0, p0 in cur:
+            rest = None
+            if isinstance(a0, ast.BoolOp) and isinstance(a0.op, ast.And) and not p0:
+                rest = [v for v in a0.values if _canon(v, True) not in known]
+            elif isinstance(a0, ast.BoolOp) and isinstance(a0.op, ast.Or) and p0:
+                rest = [v for v in a0.values if (lambda c: (c[0], not c[1]))(_canon(v, True)) not in known]
+            if rest is not None and len(rest) == 1 and len(rest) < len(a0.values):
+                new += [strip_not(x, q) for x, q in facts.split_conj(rest[0], p0)]
+                changed = True
+            else:
+                new.append((a0, p0))
+        cur = new
+        if not changed:
+            break
+    out, seen = [], set()
+    for a0, p0 in cur:
+        k = _canon(a0, p0)
+        if k not in seen:
+            seen.add(k)
+            out.append((a0, p0))
+    return out
+
+
+def _same_parent_atom(a: A, f, at, pol, P):
+    """what an atom of a path condition says in the parent setter:
+        'same'   the given parent IS the task's current parent (is / == / id() ==, on self.parent or self.__parent)
+        'mode'   parent given / not given, task has / has no parent
+        None     anything else"""
+    def cur(e):
+        return a.is_self_attr(f, e, '_Task__parent') or a.is_self_attr(f, e, 'parent')
+
+    def new(e):
+        return isinstance(e, ast.Name) and e.id == P
+    if isinstance(at, ast.Name) and at.id == P:
+        return 'mode'
+    if cur(at):
+        return 'mode'
+    if isinstance(at, ast.Compare) and len(at.ops) == 1:
+        l, op, r = at.left, at.ops[0], at.comparators[0]
+        if isinstance(op, (ast.Is, ast.IsNot)) and const_of(r) is None and (new(l) or cur(l)):
+            return 'mode'
+        for pat in ("id($x)",):
+            ml, mr = match(pat, l), match(pat, r)
+            if ml and mr:
+                l, r = ml['x'], mr['x']
+        if (cur(l) and new(r)) or (new(l) and cur(r)):
+            if isinstance(op, (ast.Is, ast.Eq)):
+                return 'same' if pol else 'mode'
+            if isinstance(op, (ast.IsNot, ast.NotEq)):
+                return 'mode' if pol else 'same'
+    return None
+
+
 def _subtree_member(a: A, f, recv, cn):
     """is the receiver self or an element of a list made of self / self.children / self.all_children: 'yes' | 'no' | '?'"""
     if a.is_self(f, recv):
@@ -2188,6 +2364,125 @@ def _value_variants(f, e, at):
     return [(v, n)]
 
 
+def _def_value(d, name):
+    """right-hand side a definition gives to `name`: plain assignment, or its slot of `a, b = x, y`"""
+    if d.kind == 'assign':
+        return d.value
+    st = d.stmt
+    if d.kind == 'unpack' and isinstance(st, ast.Assign) and len(st.targets) == 1 and isinstance(st.targets[0], (ast.Tuple, ast.List)) \
+            and isinstance(st.value, (ast.Tuple, ast.List)) and len(st.value.elts) == len(st.targets[0].elts) \
+            and not any(isinstance(x, ast.Starred) for x in st.targets[0].elts + st.value.elts):
+        for tg, v in zip(st.targets[0].elts, st.value.elts):
+            if isinstance(tg, ast.Name) and tg.id == name:
+                return v
+    return None
+
+
+class _Subst(ast.NodeTransformer):
+    def __init__(self, sub):
+        self.sub = sub
+
+    def visit_Name(self, n):
+        if isinstance(n.ctx, ast.Load) and n.id in self.sub:
+            import copy
+            return copy.deepcopy(self.sub[n.id])
+        return n
+
+
+def _pick_ifexp(e, choice):
+    """replace every conditional expression whose test text is in `choice` by the chosen arm"""
+    class P(ast.NodeTransformer):
+        def visit_IfExp(self, n):
+            n = self.generic_visit(n)
+            k = src(n.test)
+            if k in choice:
+                return n.body if choice[k] else n.orelse
+            return n
+    import copy
+    return P().visit(copy.deepcopy(e))
+
+
+def _index_variants(a: A, f, e, at):
+    """the values an insert position can take, one per way the code selects it:
+        [(expression, [cfg nodes whose path conditions select the variant], cfg node that evaluates it, [(test, polarity)])]
+    - a local with one assignment per branch (`if c: i = X else: i = Y`, also `a, k = X, 0` / `a, k = Y, 1` pairs and locals
+      hoisted out of the loop) yields one variant per branch, the locals of one branch being substituted together;
+    - conditional expressions (`L.index(b if c else a) + (0 if c else 1)`) yield one variant per truth value of each test.
+    None when the definitions cannot be paired up."""
+    fl = flow_of(f)
+    cfg = cfg_of(f)
+    if at is None:
+        return None
+    if isinstance(e, ast.Name):
+        ds = fl.reaching(e.id, at)
+        if len(ds) > 1 and all(_def_value(d, e.id) is not None and d.node is not None for d in ds):
+            out = []
+            for d in ds:
+                sub = _index_variants(a, f, _def_value(d, e.id), d.node)
+                if sub is None:
+                    return None
+                out += [(x, sel + [d.node], ev, extra) for x, sel, ev, extra in sub]
+            return out
+        v, n, hops = resolve(f, e, at)
+        if hops:
+            return _index_variants(a, f, v, n)
+        return [(e, [], at, [])]
+    # locals of the expression that have one definition per branch: substitute branch-wise
+    multi = {}
+    for n in ast.walk(e):
+        if isinstance(n, ast.Name) and isinstance(n.ctx, ast.Load) and n.id not in multi:
+            ds = fl.reaching(n.id, at)
+            if len(ds) > 1:
+                if not all(_def_value(d, n.id) is not None and d.node is not None for d in ds):
+                    continue        # parameters that are overwritten etc.: left to the caller
+                multi[n.id] = ds
+    variants = [(e, [], [])]
+    if multi:
+        def sig(d):
+            return tuple((id(t), p) for t, p in cfg.conditions(d.node))
+        sigs = None
+        for nm, ds in multi.items():
+            s0 = {sig(d) for d in ds}
+            if len(s0) != len(ds) or (sigs is not None and s0 != sigs):
+                return None
+            sigs = s0
+        variants = []
+        for sg in sorted(sigs, key=lambda z: [p for _, p in z]):
+            sub, sel = {}, []
+            for nm, ds in multi.items():
+                d = next(d for d in ds if sig(d) == sg)
+                sub[nm] = _def_value(d, nm)
+                sel.append(d.node)
+            import copy
+            variants.append((_Subst(sub).visit(copy.deepcopy(e)), sel, []))
+    out = []
+    for i, (x, sel, extra) in enumerate(variants):
+        # locals that hold a conditional expression (`k = 0 if c else 1`) are written out so that the cases can be split
+        sub = {}
+        for n in ast.walk(x):
+            if isinstance(n, ast.Name) and isinstance(n.ctx, ast.Load) and n.id not in sub:
+                v, vn, hops = resolve(f, n, at)
+                if hops and isinstance(v, ast.IfExp):
+                    sub[n.id] = v
+        if sub:
+            import copy
+            x = _Subst(sub).visit(copy.deepcopy(x))
+            variants[i] = (x, sel, extra)
+    for x, sel, extra in variants:
+        tests = {}
+        for n in ast.walk(x):
+            if isinstance(n, ast.IfExp):
+                tests.setdefault(src(n.test), n.test)
+        if len(tests) > 2:
+            return None
+        combos = [{}]
+        for k in tests:
+            combos = [dict(c, **{k: v}) for c in combos for v in (True, False)]
+        for ch in combos:
+            out.append((_pick_ifexp(x, ch) if ch else x, sel, at, extra + [(tests[k], v) for k, v in ch.items()]))
+    return out
+
+
 def _parse_index(e):
     """L.index(X) + k  ->  (L, X, k)"""
     k = 0
@@ -2290,8 +2585,11 @@ def move_index(a: A, ctx):
                 o.undecided(f, c, c, f"{what}: insert with unexpected arguments")
                 return
             k, fo = elem_class(a, f, c.args[1], e.cn)
+            if k is None and isinstance(c.args[1], ast.Name) and c.args[1].id in (B, AF):
+                o.refute(f, c, c, f"{what}: inserts the anchor `{src(c.args[1])}` instead of one of the tasks to move")
+                return
             if k is None or k[0] == 'other':
-                o.refute(f, c, c, f"{what}: inserts `{src(c.args[1])}`, which is not one of the tasks to move")
+                o.undecided(f, c, c, f"{what}: cannot tell that `{src(c.args[1])}` ranges over the tasks to move")
                 return
             if k[0] == 'arg-reordered':
                 o.refute(f, fo, fo.iter, f"{what}: tasks are moved in the order of `{k[1]}(...)`, not in argument order")
@@ -2300,7 +2598,11 @@ def move_index(a: A, ctx):
                 o.refute(f, fo, fo.iter, f"{what}: the loop moves the tasks of the list itself, not the given ones")
                 return
             hn = cfg.node_of(fo)
-            for idx, idn in _value_variants(f, c.args[0], e.cn):
+            variants = _index_variants(a, f, c.args[0], e.cn)
+            if variants is None:
+                o.undecided(f, c, c.args[0], f"{what}: insert position is selected in a way the rule cannot split into cases")
+                return
+            for idx, sel_nodes, idn, extra in variants:
                 p = _parse_index(idx)
                 if p is None:
                     if facts.const_num(idx) is not None or (isinstance(idx, ast.Call) and getattr(idx.func, 'id', '') == 'len'):
@@ -2326,6 +2628,10 @@ def move_index(a: A, ctx):
                                                  "immediately AFTER the anchor = index(after) + 1"))
                     return
                 atoms = path_atoms(a, f, idn if idn is not None else e.cn)
+                for sn in sel_nodes:
+                    atoms = atoms + path_atoms(a, f, sn)
+                for t0, p0 in extra:
+                    atoms = atoms + [(strip_not(x, q) + (t0,)) for x, q in facts.split_conj(t0, p0)]
                 other = AF if anchor.id == B else B
                 s_me, s_other = _none_state(atoms, anchor.id), _none_state(atoms, other)
                 if s_me == 'none' or (s_me is None and s_other == 'set'):
@@ -2394,6 +2700,45 @@ def _key_kind(keyfn, key_param):
     return 'other'
 
 
+def _helper_key_kinds(a: A, f, call, key_param):
+    """`key=make_key(key)`: the helper (a function of this package) returns key functions; each returned lambda is classified
+    against the helper's own parameter that receives `key`.   ('ok', 'single+multi') | ('refute', msg) | None (not followed)"""
+    tg = None
+    for ci in a.cg.calls_in(f):
+        if ci.node is call and len(ci.targets) == 1 and ci.targets[0] is not None and ci.kind == 'call':
+            tg = ci.targets[0]
+    if tg is None or not isinstance(tg.node, (ast.FunctionDef,)):
+        return None
+    args = facts.bound_args(call, tg)
+    hp = None
+    for prm, arg in zip(tg.params[1:] if tg.kind in ('method', 'getter', 'setter') else tg.params, args):
+        if isinstance(arg, ast.Name) and arg.id == key_param:
+            hp = prm
+    if hp is None:
+        return None
+    if any(d.kind != 'param' for d in flow_of(tg).defs_of(hp)):
+        return None
+    rets = returns_of(tg)
+    if not rets:
+        return None
+    kinds = []
+    for r in rets:
+        v = resolve(tg, r.value, cfg_of(tg).node_of(r))[0] if r.value is not None else None
+        k = _key_kind(v, hp)
+        if k == 'other':
+            g = _attr_getter(v.body, v.args.args[0].arg) if isinstance(v, ast.Lambda) and len(v.args.args) == 1 else None
+            if g is not None:
+                return ('refute', f"the key function built by {tg.name} reads `{src(g)}` instead of the attribute named by `{hp}`")
+            return None
+        if k not in kinds:
+            kinds.append(k)
+    # falling off the end would hand None to sorted(): then the natural order of tasks decides
+    cfg = cfg_of(tg)
+    if any(p.ast is not None and not isinstance(p.ast, ast.Return) or p.kind == 'branch' for p in cfg.exit.pred):
+        return None
+    return ('ok', '+'.join(kinds))
+
+
 @part
 def sort_stable(a: A, ctx):
     o = ctx.ob('sort', 'R4',
@@ -2445,9 +2790,16 @@ def sort_stable(a: A, ctx):
             elif w.kind == 'mutate:sort':
                 call = w.node
                 if call.args:
-                    o.undecided(f, call, call, f"{what}: positional arguments to list.sort")
-                    bad = True
-                    continue
+                    # list.sort takes keywords only; positional arguments are what the normaliser makes of `key=` / `reverse=`
+                    # (it binds them by the parameter order of the package's own `sort(key, reverse)`)
+                    names = [p0 for p0 in f.params[1:]]
+                    if len(call.args) > len(names) or any(isinstance(x, ast.Starred) for x in call.args) or \
+                            any(k.arg in names[:len(call.args)] for k in call.keywords):
+                        o.undecided(f, call, call, f"{what}: positional arguments to list.sort")
+                        bad = True
+                        continue
+                    call = ast.Call(func=call.func, args=[], keywords=[ast.keyword(arg=n0, value=v0) for n0, v0 in zip(
+                        ['key', 'reverse'], call.args)] + list(call.keywords))
                 inplace = True
             else:
                 o.undecided(f, w.node, w.node, f"{what}: edits the list with `{w.kind}`")
@@ -2469,16 +2821,32 @@ def sort_stable(a: A, ctx):
                 o.refute(f, w.node, call, f"{what}: sorts without a key: the attribute named by `{KEY}` is ignored")
                 bad = True
                 continue
-            kf_r, _, _ = resolve(f, kf, e.cn)
-            kk = _key_kind(kf_r, KEY)
-            if kk == 'other':
-                g = _attr_getter(kf_r.body, kf_r.args.args[0].arg) if isinstance(kf_r, ast.Lambda) and len(kf_r.args.args) == 1 else None
-                if g is not None:
-                    o.refute(f, w.node, kf, f"{what}: sorts by `{src(g)}` instead of the attribute named by `{KEY}`")
-                else:
-                    o.undecided(f, w.node, kf, f"{what}: key function is not an attribute getter of `{KEY}`")
+            # the key function: a lambda, a local holding one (one assignment per branch of a type test counts per branch),
+            # or the result of a helper that builds it from `key`
+            kinds, kbad = [], False
+            for kf_r, kf_n in _value_variants(f, kf, e.cn):
+                kk = _key_kind(kf_r, KEY)
+                if kk == 'other' and isinstance(kf_r, ast.Call):
+                    hk = _helper_key_kinds(a, f, kf_r, KEY)
+                    if hk is not None and hk[0] == 'refute':
+                        o.refute(f, w.node, kf, f"{what}: {hk[1]}")
+                        kbad = True
+                        break
+                    if hk is not None and hk[0] == 'ok':
+                        kk = hk[1]
+                if kk == 'other':
+                    g = _attr_getter(kf_r.body, kf_r.args.args[0].arg) if isinstance(kf_r, ast.Lambda) and len(kf_r.args.args) == 1 else None
+                    if g is not None:
+                        o.refute(f, w.node, kf, f"{what}: sorts by `{src(g)}` instead of the attribute named by `{KEY}`")
+                    else:
+                        o.undecided(f, w.node, kf, f"{what}: key function is not an attribute getter of `{KEY}`")
+                    kbad = True
+                    break
+                kinds += [k for k in kk.split('+') if k not in kinds]
+            if kbad:
                 bad = True
                 continue
+            kk = '+'.join(kinds)
             sorts.append((e, inplace, kk))
         if bad:
             a.leftovers(o, f, what)
@@ -2495,7 +2863,8 @@ def sort_stable(a: A, ctx):
         if not a.must_pass(o, f, [e for e, _, _ in sorts], [], what):
             return
         for e, inplace, kk in sorts:
-            o.site(f, e.node, f"{kk} key, reverse={REV}" + (', in place' if inplace else ', published'))
+            for k1 in kk.split('+'):     # one site per documented key form (attribute name / list of names)
+                o.site(f, e.node, f"{k1} key, reverse={REV}" + (', in place' if inplace else ', published'))
         a.leftovers(o, f, what)
     ctx.guarded(o, run)
 
@@ -2530,6 +2899,8 @@ def _first_match(a: A, f, e, at, idvar):
             gen = e.value
         elif i is not None:
             return 'refute', f"takes element [{int(i)}] of the matches instead of the first one"
+    if isinstance(gen, ast.Name):
+        gen = resolve(f, gen, at)[0]
     if not isinstance(gen, (ast.GeneratorExp, ast.ListComp)) or len(gen.generators) != 1:
         return 'undecided', "the picked task is not `next(t for t in list if t.id == id)`"
     g = gen.generators[0]
@@ -2773,6 +3144,65 @@ def reorder_effect(a: A, ctx):
 
 
 # ====================================================================================================== insert
+def _facade_read_nodes(a: A, f, e, at, _seen=None) -> List[Node]:
+    """cfg nodes at which the value of `e` (evaluated at cfg node `at`) READS the facade's list (`self._list`, or the facade
+    itself being iterated / indexed): locals are followed through ALL their reaching definitions (both arms of an if/else,
+    conditional overwrites), loop variables to the loop's iterable and accumulator lists to the statements that fill them"""
+    seen = _seen if _seen is not None else set()
+    out: List[Node] = []
+    if e is None or at is None:
+        return out
+    cfg = cfg_of(f)
+    fl = flow_of(f)
+    attr_bases = {id(n.value) for n in ast.walk(e) if isinstance(n, ast.Attribute)}
+    bound = set()
+    for n in ast.walk(e):
+        if isinstance(n, ast.comprehension):
+            bound |= names_in(n.target)
+        elif isinstance(n, ast.Lambda):
+            bound |= {x.arg for x in n.args.args}
+    for n in ast.walk(e):
+        if a.is_self_attr(f, n, LIST) or (a.is_self(f, n) and id(n) not in attr_bases):
+            out.append(at)
+        if isinstance(n, ast.Name) and n.id not in bound and n.id != f.self_name:
+            for d in fl.reaching(n.id, at):
+                if d.node is None or (id(d), at.id) in seen:
+                    continue
+                seen.add((id(d), at.id))
+                if d.value is not None:
+                    out += _facade_read_nodes(a, f, d.value, d.node, seen)
+                elif d.kind == 'for':
+                    out += _facade_read_nodes(a, f, d.stmt.iter, d.node, seen)
+            # a list filled in place: the statements that add to it
+            for c in _local_mutations(f, n.id):
+                cn = cfg.node_containing(c)
+                if cn is None or (id(c), 0) in seen:
+                    continue
+                seen.add((id(c), 0))
+                for x in c.args:
+                    out += _facade_read_nodes(a, f, x, cn, seen)
+    return out
+
+
+def _neg_index_form(e, IDX, L):
+    """`max(len(L) + IDX, 0) if IDX < 0 else IDX`  (list.insert's treatment of negative indexes, as one expression)"""
+    if not isinstance(e, ast.IfExp):
+        return False
+    t, pol = strip_not(e.test, True)
+    body, orelse = (e.body, e.orelse) if pol else (e.orelse, e.body)
+    if match(f"{IDX} >= 0", t) or match(f"0 <= {IDX}", t):
+        body, orelse = orelse, body
+    elif not (match(f"{IDX} < 0", t) or match(f"0 > {IDX}", t)):
+        return False
+    if not (isinstance(orelse, ast.Name) and orelse.id == IDX):
+        return False
+    for pat in (f"max(len($l) + {IDX}, 0)", f"max(0, len($l) + {IDX})", f"max({IDX} + len($l), 0)", f"max(0, {IDX} + len($l))"):
+        m = match(pat, body)
+        if m and same(m['l'], L):
+            return True
+    return False
+
+
 @part
 def insert_index(a: A, ctx):
     o = ctx.ob('insert_index', 'R8',
@@ -2852,17 +3282,16 @@ def insert_index(a: A, ctx):
         if not cfg.can_reach(at_ev.cn, m_ev.cn) or cfg.can_reach(m_ev.cn, at_ev.cn):
             o.refute(f, c, c, f"{what}: the task is moved before it is attached to this list")
             return
-        # ---- anchor
-        an, an_n, hops = resolve(f, anchor_arg, m_ev.cn)
-        if an_n is None:
-            o.undecided(f, c, anchor_arg, f"{what}: anchor has no single definition")
-            return
-        if cfg.can_reach(at_ev.cn, an_n) and an_n is not at_ev.cn:
+        # ---- anchor: the value handed to move(), with locals, if/else arms and fill loops folded into one expression
+        late = [n for n in _facade_read_nodes(a, f, anchor_arg, m_ev.cn) if n is not at_ev.cn and cfg.can_reach(at_ev.cn, n)]
+        if late:
             o.refute(f, c, anchor_arg, f"{what}: the anchor is looked up AFTER the task has been attached (it is then the last element "
                                        f"of the list): index len(list) finds the task itself and earlier indexes are shifted for a task "
                                        f"that was already in the list")
             return
-        # conditions of the move: only `anchor is not None`
+        an = a.X(f).expand(anchor_arg, m_ev.cn)
+        # conditions of the move: only `anchor is not None` (or, for an anchor subscripted in place, the bound test itself)
+        bound_tests = []
         for atm, pol, _ in _raw_atoms(f, m_ev.cn):
             okc = isinstance(anchor_arg, ast.Name) and (
                 (match(f"{anchor_arg.id} is not None", atm) and pol) or (match(f"{anchor_arg.id} is None", atm) and not pol))
@@ -2871,8 +3300,18 @@ def insert_index(a: A, ctx):
                 tst = [t for t, p in cfg.conditions(m_ev.cn) if any(x is atm for x in ast.walk(t))]
                 if tst and is_rejection(cfg, tst[0], pol):
                     continue
+                if isinstance(an, ast.Subscript) and isinstance(atm, ast.Compare) and tst:
+                    bound_tests.append((a.X(f).expand(atm, cfg.node_containing(tst[0])), pol))
+                    continue
                 o.undecided(f, c, atm, f"{what}: the move depends on a condition the rule does not know")
                 return
+        if isinstance(an, ast.Subscript) and len(bound_tests) == 1:
+            # `if i < len(L): self.move(task, before=L[i])`  ==  anchor `L[i] if i < len(L) else None`, move when not None
+            bt, bp = bound_tests[0]
+            an = ast.IfExp(test=bt if bp else ast.UnaryOp(op=ast.Not(), operand=bt), body=an, orelse=ast.Constant(value=None))
+        elif bound_tests:
+            o.undecided(f, c, bound_tests[0][0], f"{what}: the move depends on a condition the rule does not know")
+            return
         if not isinstance(an, ast.IfExp):
             if isinstance(an, ast.Subscript):
                 o.refute(f, c, an, f"{what}: anchor `{src(an)}` has no `index >= len(list)` case: insert at / past the end must append")
@@ -2885,10 +3324,6 @@ def insert_index(a: A, ctx):
         cmp_ = None
         if isinstance(test, ast.Compare) and len(test.ops) == 1:
             l, op, r = test.left, test.ops[0], test.comparators[0]
-            if isinstance(l, ast.Name) and l.id != IDX:
-                l = resolve(f, l, an_n)[0]
-            if isinstance(r, ast.Name) and r.id != IDX:
-                r = resolve(f, r, an_n)[0]
             FLIP = {ast.Lt: ast.Gt, ast.Gt: ast.Lt, ast.LtE: ast.GtE, ast.GtE: ast.LtE}
             if match("len($l)", l) and type(op) in FLIP:
                 l, r, op = r, l, FLIP[type(op)]()
@@ -2913,10 +3348,11 @@ def insert_index(a: A, ctx):
         if not (isinstance(body, ast.Subscript) and not isinstance(body.slice, ast.Slice)):
             o.undecided(f, c, an, f"{what}: anchor is not an element of the list")
             return
-        if not (isinstance(i_expr, ast.Name) and i_expr.id == IDX):
+        plain_idx = isinstance(i_expr, ast.Name) and i_expr.id == IDX
+        if not plain_idx and not _neg_index_form(i_expr, IDX, L_len):
             o.undecided(f, c, an.test, f"{what}: the bound test is not about `{IDX}`")
             return
-        if not (isinstance(body.slice, ast.Name) and body.slice.id == IDX):
+        if not same(body.slice, i_expr):
             if isinstance(body.slice, ast.BinOp) and IDX in names_in(body.slice):
                 o.refute(f, c, body, f"{what}: anchor is element `{src(body.slice)}`; insert(i) must put the task before element i")
             else:
@@ -2925,8 +3361,10 @@ def insert_index(a: A, ctx):
         if not same(body.value, L_len):
             o.refute(f, c, an, f"{what}: the bound is taken on `{src(L_len)}` but the element from `{src(body.value)}`")
             return
-        L, L_n, _ = resolve(f, body.value, an_n)
+        L = body.value
         t = norm_list(L)
+        if t[0] == 'concat' and len(t[1]) == 2 and t[1][0][0] == 'lit' and not t[1][0][1]:
+            t = t[1][1]         # `[] + [x for ..]`: the folded form of a list filled by a loop
         if t[0] == 'ref' and _is_facade_list(a, f, L):
             o.refute(f, c, an, f"{what}: the anchor is taken from the list that may still contain the task itself: moving a member "
                                f"to a later index lands one position too early / on itself")
@@ -2945,12 +3383,9 @@ def insert_index(a: A, ctx):
             else:
                 o.undecided(f, c, L, f"{what}: anchor list filter not understood")
             return
-        if L_n is not None and cfg.can_reach(at_ev.cn, L_n):
-            o.refute(f, c, L, f"{what}: the list without the task is computed after the task was attached")
-            return
         o.site(f, c, f"anchor = {src(an)[:80]}")
         # ---- negative index normalisation, when present: like list.insert
-        for d in flow_of(f).defs_of(IDX):
+        for d in (flow_of(f).defs_of(IDX) if plain_idx else []):
             if d.kind == 'param':
                 continue
             okn = d.kind == 'assign' and d.value is not None and (
@@ -2959,7 +3394,7 @@ def insert_index(a: A, ctx):
             conds = [(t0, p0) for t0, p0, _ in _raw_atoms(f, d.node)] if d.node is not None else []
             neg = any((match(f"{IDX} < 0", t0) and p0) or (match(f"{IDX} >= 0", t0) and not p0) or (match(f"0 > {IDX}", t0) and p0)
                       for t0, p0 in conds)
-            if not okn or not neg or not same(okn['l'], body.value):
+            if not okn or not neg or not same(a.X(f).expand(okn['l'], d.node), L):
                 o.undecided(f, d.stmt, d.stmt, f"{what}: `{IDX}` is rewritten in a way the rule does not know "
                                                f"(expected: `if {IDX} < 0: {IDX} = max(len(list) + {IDX}, 0)`)")
                 return
@@ -3015,17 +3450,54 @@ def frame(a: A, ctx):
             return 'old:' + k[1]
         return '?'
 
+    def followed_helper(f, e):
+        """the private method of f's own class that call event e hands work to on `self` (not a documented mutator): its
+        events are judged as if they stood in f"""
+        if e.kind != 'call' or not isinstance(e.node, ast.Call) or not isinstance(e.node.func, ast.Attribute):
+            return None
+        if not a.is_self(f, e.node.func.value):
+            return None
+        tg = [t for t in e.ci.targets if t is not None]
+        if len(tg) != 1:
+            return None
+        g = tg[0]
+        if g.cls != f.cls or g.qual in ALLM or not g.name.startswith('_') or g.name.endswith('__') or g.kind != 'method':
+            return None
+        for x in e.node.args + [k.value for k in e.node.keywords]:
+            r = a.eff.root_of(x, f)
+            if not (r == 'self' or r.startswith('param:') or isinstance(x, ast.Constant)):
+                return None
+        return g
+
+    def all_events(f):
+        """[(function the event stands in, event, reached through a helper?)]"""
+        out, seen, todo = [], {f.qual}, [(f, False)]
+        while todo:
+            g, via = todo.pop(0)
+            for e in a.events(g):
+                h = followed_helper(g, e)
+                if h is not None:
+                    if h.qual not in seen:
+                        seen.add(h.qual)
+                        todo.append((h, True))
+                    continue
+                out.append((g, e, via))
+        return out
+
     def run(o):
         mset = {q for q in ALLM}
         for q in ALLM:
             if q.endswith('Task._detach') and not a.prog.has_func(q):
                 o.site(None, None, 'no Task._detach in this tree')
                 continue
-            f = a.fn(q)
+            f0 = a.fn(q)
             ok = True
             n = 0
-            for e in a.events(f):
+            for f, e, via in all_events(f0):
                 n += 1
+                # inside a followed helper the parameters stand for whatever the mutator passed: a receiver the table cannot
+                # classify there is not a positively identified wrong write
+                verdict = o.undecided if via else o.refute
                 if e.kind == 'write':
                     if f.cls != 'Task':
                         if not (e.w.field == LIST and a.is_self(f, e.w.recv)):
@@ -3035,7 +3507,7 @@ def frame(a: A, ctx):
                         continue
                     allowed = TABLE.get(q, {})
                     rc = recv_class(f, e)
-                    if f.name in ('_attach', '_detach') and rc != 'self':
+                    if f0.name in ('_attach', '_detach') and rc != 'self':
                         sm = _subtree_member(a, f, e.w.recv, e.cn)
                         if sm == 'yes':
                             rc = 'self'        # a member of the moved subtree
@@ -3045,19 +3517,19 @@ def frame(a: A, ctx):
                             continue
                     if e.w.field not in allowed:
                         o.refute(f, e.node, e.node, f"{f.name} writes {unmangle(e.w.field)} (`{src(e.node)[:60]}`), which is not a relation "
-                                                    f"this mutator is documented to change")
+                                                    f"{f0.name if via else 'this mutator'} is documented to change")
                         ok = False
                     elif rc not in allowed[e.w.field]:
-                        o.refute(f, e.node, e.node,
-                                 f"{f.name} writes {unmangle(e.w.field)} of `{src(e.w.recv)}` ({rc if rc != '?' else 'a task that is neither self, '
-                                 'an element of the argument or of the old list, nor the old / new parent'}); allowed receivers: "
-                                 f"{', '.join(sorted(allowed[e.w.field]))}")
+                        verdict(f, e.node, e.node,
+                                f"{f.name} writes {unmangle(e.w.field)} of `{src(e.w.recv)}` ({rc if rc != '?' else 'a task that is neither self, '
+                                'an element of the argument or of the old list, nor the old / new parent'}); allowed receivers: "
+                                f"{', '.join(sorted(allowed[e.w.field]))}")
                         ok = False
                 elif e.kind in ('setter', 'call'):
-                    if e.kind == 'call' and a.wbs_only(e) and f.name in ('_attach', '_detach'):
+                    if e.kind == 'call' and a.wbs_only(e) and f0.name in ('_attach', '_detach'):
                         continue        # structure of the bookkeeping walk: C16.subtree_follows
                     bad_t = [t.qual for t in e.ci.targets if t is not None and t.qual not in mset
-                             and t.qual != 'task._TaskList.remove'
+                             and t.qual != 'task._TaskList.remove' and t is not f
                              and any(fld in REL_FIELDS for fld, _ in a.eff.writes_star(t))]
                     if bad_t:
                         o.undecided(f, e.node, e.node, f"{f.name} calls {', '.join(bad_t)}, which changes task relations and is not one of "
@@ -3074,6 +3546,7 @@ def frame(a: A, ctx):
                             o.refute(f, e.node, e.node, f"{f.name} applies `{src(e.node)[:60]}` to `{src(recv)}`, an object that is neither "
                                                         f"self / its owner nor an argument (root: {root})")
                             ok = False
+            f = f0
             if n == 0 and not q.endswith('_ImmutableTaskList.__add__'):
                 o.undecided(f, f.node, f.name, f"no relation event found in mutator {f.name}: the analysis lost track of its effect")
                 ok = False
